@@ -2,8 +2,8 @@
 
 E3 small-scope enumeration.  Every call form of every function of
 queries.py / collections.py (+ unpack / with of system.py) is executed on every
-sequence over {1, 2, 3, null, 'a'} up to the bound, presented as tuple, one-shot
-iterator and set (dict / pair / nested families where the function is typed
+sequence over {1, 2, 3, null, 'a'} (quick: without 3) up to the bound, presented
+as tuple, one-shot iterator and set (dict / pair / nested families where the function is typed
 so), with every lambda of the generated family and every integer argument in
 [-2, len + 2]; the finalised result is compared with models/colls.py.  Then
 pipelines: all pairs of operator instances over a reduced argument alphabet,
@@ -36,12 +36,12 @@ ASSUMPTIONS = [
 ]
 BOUNDS = {
     'quick': 'single operators: sequences over {1,2,null,a} of length <= 3 (85; call forms with > 8 argument combinations: length <= 2) '
-             'x {tuple, iterator, set}, ints [-2, len+2], the 5 unary lambdas, pair/nested families length <= 2, dicts <= 2 keys, '
+             'x {tuple, iterator, set}, ints [-2, len+2], the 5 unary lambdas, pair family length <= 3, nested family <= 2, dicts <= 2 keys, '
              'set pairs <= 3 elements; 2-pipelines: every ordered pair of call forms (one instance each) on sequences over '
              '{1,2,null} of length <= 2 x {tuple, iterator}; 3-chains over a 12-instance streaming core (+5 terminal searches) on '
              'the same sequences',
     'thorough': 'single operators: sequences over {1,2,3,null,a} of length <= 4 (781; forms with > 24 argument combinations: <= 3), '
-                'pair/nested families length <= 3, dicts <= 3 keys, set pairs <= 5 elements; 2-pipelines: every ordered pair of '
+                'pair family length <= 4, nested family <= 3, dicts <= 3 keys, set pairs <= 5 elements; 2-pipelines: every ordered pair of '
                 'instances over the reduced argument alphabet on sequences over {1,2,null,a} of length <= 2, and one instance per '
                 'form on length 3; 3-chains over the 16-instance core on {1,2,null} length <= 3; 4-chains over the 12-instance core '
                 'on {1,null} length <= 2',
